@@ -69,7 +69,16 @@ def _check_syntactic(m, run, funcs, summ, contracts):
         run.ob('LY2.flip-contract', 'compatibility.%s :: derived contract' % name, ok,
                'index arithmetic is consistent for a %s input and returns %s (as documented)' % (accepts, ret) if ok else
                'the body accepts a %s list, the documented contract is %s' % (accepts, DOC_CONTRACT[name]), site(m.func('compatibility.' + name)))
-    ld.construct_rules(m, run, summ)
+    # construction from sections is decided on sections and results built by the real classes, with exact points and weights (CS2); the
+    # symbolic-size interpretation of construct_surface / construct_volume corroborates
+    n_cs = len(run.obs)
+    try:
+        _sd.cs2(m, run)
+    except AnalysisError as ex:
+        run.error(str(ex))
+    cs_ok = len(run.obs) > n_cs and all(o.ok for o in run.obs[n_cs:])
+    with run.corroborating(cs_ok, 'CS2', rules=('LY3.weights-follow-points',)):
+        ld.construct_rules(m, run, summ)
     ld.extract_rules(m, run, summ)
     n2 = len(run.obs)
     _sd.ex2(m, run)
